@@ -1,5 +1,6 @@
-Require Import DS.Base DS.Utf8 DS.Strings DS.Codec.
+Require Import DS.Base DS.Utf8 DS.Strings DS.Codec DS.Json.
 Require Import ExtrOcamlBasic.
 Extraction Language OCaml.
 Extraction "../ocaml/gen/c17_model.ml" N.of_nat N.to_nat Z.of_N Z.to_N
-  b64_encode b64_decode utf8_encode utf8_decode cmd_hex_encode cmd_hex_decode scalar.
+  b64_encode b64_decode utf8_encode utf8_decode cmd_hex_encode cmd_hex_decode scalar
+  create_structure encode_from_state roundtrip roundtrip_model fuel_for empty_store normalise json_wfb no_handle_leafb.
